@@ -65,9 +65,39 @@ class _End(Exception):
     pass
 
 
+# stream kinds: 0 file-like (read), 1 iterator (iter(x) is x), 2 (ASGI) async generator,
+# 3 CONTAINER: __iter__/__aiter__ returns a SEPARATE iterator object (close() lives on the
+# container the application assigned), 5 has both read() and __iter__/__aiter__
+def model_kind(kind):
+    return 0 if kind in (0, 5) else 1
+
+
 def make_wsgi_stream(kind, chunks, raises, has_close):
     sc = Script(chunks, raises)
-    if kind == 0:
+    if kind == 3:
+        class Box:
+            def __iter__(self):
+                def gen():
+                    while True:
+                        try:
+                            item = sc.step(_End())
+                        except _End:
+                            return
+                        yield item
+                return gen()
+        cls = Box
+    elif kind == 5:
+        class Both:
+            def read(self, size=-1):
+                try:
+                    return sc.step(_End())
+                except _End:
+                    return b''
+
+            def __iter__(self):
+                raise ProtocolError('a file-like stream must be read(), not iterated')
+        cls = Both
+    elif kind == 0:
         class F:
             def read(self, size=-1):
                 try:
@@ -102,7 +132,30 @@ def make_asgi_stream(kind, chunks, raises, has_close):
                     return
                 yield item
         return agen(), sc
-    if kind == 0:
+    if kind == 3:
+        class ABox:
+            def __aiter__(self):
+                async def agen():
+                    while True:
+                        try:
+                            item = sc.step(_End())
+                        except _End:
+                            return
+                        yield item
+                return agen()
+        cls = ABox
+    elif kind == 5:
+        class ABoth:
+            async def read(self, size=-1):
+                try:
+                    return sc.step(_End())
+                except _End:
+                    return b''
+
+            def __aiter__(self):
+                raise ProtocolError('a file-like stream must be read(), not iterated')
+        cls = ABoth
+    elif kind == 0:
         class F:
             async def read(self, size=-1):
                 try:
@@ -333,7 +386,7 @@ def gen_cell(rng, asgi):
     stream = None
     if rng.random() < 0.45:
         chunks = [c for c in rng.choice(CHUNKSETS)]
-        kind = rng.randint(0, 2) if asgi else rng.randint(0, 1)
+        kind = rng.choice([0, 1, 2, 3, 3, 5]) if asgi else rng.choice([0, 1, 3, 3, 5])
         if asgi and rng.random() < 0.2:
             chunks = list(chunks)
             chunks.insert(rng.randint(0, len(chunks)), None)
@@ -530,7 +583,7 @@ class Env:
         stream = []
         if c['stream'] is not None:
             kind, chunks, raises, has_close = c['stream']
-            stream = [[min(kind, 1), [[] if ch is None else [ch] for ch in chunks], int(raises), has_close]]
+            stream = [[model_kind(kind), [[] if ch is None else [ch] for ch in chunks], int(raises), has_close]]
         sse = []
         if c['sse'] is not None and c['asgi']:
             sse = [[(falcon.asgi.SSEvent() if e is None else falcon.asgi.SSEvent(**e)).serialize() for e in c['sse']]]
@@ -777,7 +830,7 @@ def fault_matrix():
     base = {'method': 'GET', 'status': [0, 200], 'text': None, 'data': None, 'media': None, 'sse': None,
             'clen': None, 'ctype': None, 'wrapper': 0, 'custom_resp': 0}
     for chunks in ([], [b'a'], [b'a', b'bc'], [b'a', b'bc', b'd'], [b'a', None, b'd'], [b'a', b'', b'd']):
-        for kind in (0, 1, 2):
+        for kind in (0, 1, 2, 3, 5):
             for raises in (0, 1, 2, 3):
                 for has_close in (True, False):
                     if kind == 2 and has_close:
